@@ -1,5 +1,6 @@
 import GuppyVerif.Lemmas.C03Top
 import GuppyVerif.Lemmas.C03Fuel
+import GuppyVerif.Lemmas.C05Order
 /-! # C05 — Side effects happen once each, in Python's evaluation order  (partial)
 
 Side effects are calls of external functions; each call is appended to the trace with its arguments
@@ -12,7 +13,9 @@ in the model (which the harness ties to the real `CFGBuilder` on every run, incl
 programs), that (i) the middle operand of a chained comparison is evaluated twice and (ii) lifted
 sub-expressions (IfExp, `and`/`or`, chained comparison, walrus) are hoisted before side-effecting
 siblings to their left.  **Proved**: the statement for the *hoist-safe* fragment (`Spec/C03.lean`).
-Unmodelled: `track_hugr_side_effects` (order edges between HUGR nodes), panics, qubit operations. -/
+`track_hugr_side_effects` (the state-order edges of the lowered HUGR) is modelled in
+`Model/OrderEdges.lean` and characterised at the end of this file.  Unmodelled: which HUGR node each Guppy
+construct is lowered to, panics, qubit operations. -/
 namespace GuppyVerif.Builder
 open GuppyVerif.Surface
 
@@ -44,10 +47,10 @@ theorem branch_preserves_order_partial (env : Env) (e : Expr) (hu : userE e = tr
 /-- **C05, partial (whole programs)**: the calls made by the CFG of a hoist-safe program are Python's calls:
     same functions, same arguments, same results, same order, same number. -/
 theorem calls_in_python_order_partial (env : Env) (p : Stmt) (rn : Bool) (g : Cfg) (st0 : Store) (o : Outcome)
-    (st' : S) (hu : userS p = true) (hs : hoistSafe p = true) (hn : noFor p = true)
+    (st' : S) (hu : userS p = true) (hs : hoistSafe p = true)
     (hsc : loopScoped p false = true) (hb : buildCfg rn p = .ok g) (hex : Exec env p (st0, []) o st') :
     ∃ (n : Nat) (c : Config), run env g.blocks n ⟨0, 0, (st0, []), none⟩ = some c ∧ c.s.2 = st'.2 := by
-  obtain ⟨n, c, h1, _, h2, _⟩ := buildCfg_correct hu hs hn hsc hb hex
+  obtain ⟨n, c, h1, _, h2, _⟩ := buildCfg_correct hu hs hsc hb hex
   exact ⟨n, c, h1, h2⟩
 
 /-! ## D9: the full statement is false of the code -/
@@ -153,16 +156,63 @@ theorem d9_aug_target_read_after_hoist :
 
 /-- hence the unrestricted statement (no hoist-safety hypothesis) is false -/
 theorem lift_preserves_order_full_is_false :
-    ¬ (∀ (env : Env) (p : Stmt) (g : Cfg) (st0 : Store) (o : Outcome) (st' : S), userS p = true → noFor p = true →
+    ¬ (∀ (env : Env) (p : Stmt) (g : Cfg) (st0 : Store) (o : Outcome) (st' : S), userS p = true →
         loopScoped p false = true → buildCfg false p = .ok g → Exec env p (st0, []) o st' →
         ∃ (n : Nat) (c : Config), run env g.blocks n ⟨0, 0, (st0, []), none⟩ = some c ∧ c.s.2 = st'.2) := by
   intro H
   obtain ⟨⟨st', hex, hlen⟩, hcfg⟩ := d9_chained_compare_middle_twice
-  obtain ⟨n, c, hrun, htr⟩ := H envCount d9Chain (cfgOf d9Chain) st00 _ st' (by decide) (by decide) (by decide)
+  obtain ⟨n, c, hrun, htr⟩ := H envCount d9Chain (cfgOf d9Chain) st00 _ st' (by decide) (by decide)
     (cfgOf_ok d9Chain (by decide)) hex
   have := (hcfg n c hrun).2.1
   rw [htr, hlen] at this
   cases this
+
+/-! ## `track_hugr_side_effects`: state-order edges (model `Model/OrderEdges.lean`)
+
+For **every** sequence of node insertions (any hierarchy in which parents are inserted before their
+children), if the builder never links a node that is already linked (`dup = false`: containers are populated
+in a nested fashion — checked on every lowered program by the harness; the model records it):
+
+* `order_edges_total_partial` — in every region the order edges form **one chain without repetition** from the
+  region's `Input` through the linked nodes to its `Output` (or there are none);
+* `side_effect_node_linked_last` — a side-effecting node inserted into a dataflow region is linked at once, as
+  the last element of that region's chain; containers of side-effecting nodes are linked by the same rule
+  (`handle_side_effect` recursing on the parent);
+* `order_edges_append_only` — edges are only ever appended, so within a chain the order of the nodes is the
+  order in which they were linked: side-effecting nodes execute in insertion order. -/
+
+open OrderEdges in
+/-- **C05 `order_edges_total`, partial** (hypothesis `dup = false`) -/
+theorem order_edges_total_partial (nds : List OrderEdges.Node) (hS : WFSeq 0 nds) (hd : (runAll nds).dup = false)
+    (p : Nat) :
+    region (runAll nds) p = [] ∨
+    ∃ inp mids last, firstChild (runAll nds).nodes p = some inp ∧ (inp :: mids ++ [last]).Nodup ∧
+      ((∃ out, (children (runAll nds).nodes p)[1]? = some out ∧
+          region (runAll nds) p = pathEdges (inp :: mids ++ [last] ++ [out])) ∨
+       ((children (runAll nds).nodes p)[1]? = none ∧ region (runAll nds) p = pathEdges (inp :: mids ++ [last]))) :=
+  chain_final hS hd p
+
+open OrderEdges in
+theorem side_effect_node_linked_last (s : St) (hW : WFN s.nodes) (hI : Inv s) (nd : OrderEdges.Node) (p inp : Nat)
+    (hnd : ∀ q, nd.parent = some q → q < s.nodes.length) (heff : nd.eff = true) (hpar : nd.parent = some p)
+    (hk : kindOf s.nodes p ≠ .cond ∧ kindOf s.nodes p ≠ .cfg) (hinp : firstChild s.nodes p = some inp) :
+    lookup (addNode nd s).prev p = some s.nodes.length := addNode_links hW hI nd hnd heff hpar hk hinp
+
+open OrderEdges in
+theorem order_edges_append_only (nd : OrderEdges.Node) (s : St) : s.edges <+: (addNode nd s).edges :=
+  addNode_edges_prefix nd s
+
+/-- non-vacuity: a function body with a call, a Conditional whose case contains a call, and another call: the
+    chains are `Input → call → Conditional → call → Output` in the body and `Input → call → Output` in the case -/
+def exOrder : List OrderEdges.Node :=
+  [⟨none, .other, false⟩, ⟨some 0, .funcDefn, false⟩, ⟨some 1, .other, false⟩, ⟨some 1, .other, false⟩,
+   ⟨some 1, .other, true⟩, ⟨some 1, .cond, false⟩, ⟨some 5, .other, false⟩, ⟨some 6, .other, false⟩,
+   ⟨some 6, .other, false⟩, ⟨some 6, .other, true⟩, ⟨some 1, .other, true⟩]
+example : OrderEdges.WFSeq 0 exOrder := by
+  simp only [exOrder, OrderEdges.WFSeq]
+  decide
+example : (OrderEdges.runAll exOrder).dup = false ∧
+    (OrderEdges.runAll exOrder).edges = [(2, 4), (4, 5), (7, 9), (5, 10), (10, 3), (9, 8)] := by decide
 
 /-! ## Non-vacuity of the positive theorems -/
 
